@@ -1,0 +1,17 @@
+//go:build verif
+
+// Verification hook (build tag "verif"): run the real StreamFace receive loop
+// over a caller-supplied connection (the simulator passes a net.Pipe end).
+
+package face
+
+import "net"
+
+// NewStreamFaceOnConn returns a StreamFace bound to an existing connection.
+// The caller sets the callbacks and starts Run itself.
+func NewStreamFaceOnConn(conn net.Conn, local bool) *StreamFace {
+	f := NewStreamFace("sim", "sim", local)
+	f.conn = conn
+	f.running.Store(true)
+	return f
+}
